@@ -27,6 +27,7 @@ SCALAR = {
     "T0": ["Trend", {"degree": 0}],
     "T1": ["Trend", {"degree": 1}],
     "S": ["Spline", {"damping": 1e-2}],
+    "S0": ["Spline", {}],       # default configuration (an exact interpolator - unless stations repeat): seed C06-9
     "K2": ["KNeighbors", {"k": 2}],
     "BR": ["BlockReduce", {"reduction": "median", "spacing": 1.0}],
     "BM": ["BlockMean", {"spacing": 1.0}],
@@ -70,6 +71,11 @@ def _cases(tier, seed):
                             if shape == "2d" and (L > 2 or ds == 1):
                                 continue
                             yield dict(kind="chain", alpha=alpha, steps=list(steps), ds=ds, w=w, shape=shape)
+                # repeated stations (dataset 2) and data of magnitude 1e-9 (an absolute "is it zero" test: seed C06-10)
+                if L <= 2:
+                    for w in (False, True):
+                        yield dict(kind="chain", alpha=alpha, steps=list(steps), ds=2, w=w, shape="1d")
+                        yield dict(kind="chain", alpha=alpha, steps=list(steps), ds=0, w=w, shape="1d", dscale=1e-9)
                 # step names: all equal (legal: the steps are a list), and in reverse alphabetical order (seed C06-7: iteration over a
                 # dict of the names)
                 if L >= 2:
@@ -89,6 +95,8 @@ def _cases(tier, seed):
         for w in (False, True):
             for shape in ("1d", "2d"):
                 yield dict(kind="filter", alpha="scalar", step=key, w=w, shape=shape)
+                yield dict(kind="filter", alpha="scalar", step=key, w=w, shape=shape, ds=2)
+                yield dict(kind="filter", alpha="scalar", step=key, w=w, shape=shape, dscale=1e-9)
     for key in ("VTK", "VTS"):
         for w in (False, True):
             for shape in ("1d", "2d"):
@@ -98,11 +106,14 @@ def _cases(tier, seed):
 
 def _dataset(i):
     """Points on a 2 x 4 block layout (spacing 1 on (0,4)x(0,2)) with unequal block populations; all off the edges."""
-    if i == 0:
+    if i in (0, 2):
         pts = [(0.2, 0.3), (0.7, 0.6), (0.4, 0.8), (1.3, 0.4), (2.6, 0.2), (2.2, 0.7), (3.5, 0.5), (0.5, 1.4), (1.6, 1.7), (1.2, 1.2),
                (2.8, 1.6), (3.3, 1.3), (3.8, 1.9), (3.6, 1.1)]
     else:
         pts = [(0.1, 0.1), (3.9, 1.9), (1.5, 0.5), (1.4, 0.9), (1.7, 0.2), (1.2, 0.6), (2.5, 1.5), (0.5, 1.5), (0.6, 1.2), (3.4, 0.4), (2.3, 0.8)]
+    if i == 2:
+        # repeated stations with different readings (no interpolator can be exact); 14 + 2 points so that the 2-D form still reshapes
+        pts = pts + [pts[0], pts[3]]
     e = np.array([p[0] for p in pts]); n = np.array([p[1] for p in pts])
     k = np.arange(e.size)
     d0 = 3.0 * e - 2.0 * n + 0.5 * e * n + ((k * 7) % 5 - 2) * 0.37 + 10.0
@@ -172,8 +183,11 @@ def run(case, rec):
         alpha, steps = case["alpha"], case["steps"]
         weighted = case.get("w", False)
 
+        dscale = case.get("dscale", 1.0)
+
         def args_for(ds_i, shape="1d"):
             e, n, d, w = _dataset(ds_i)
+            d = tuple(x * dscale for x in d)
             if shape == "2d" and e.size % 2 == 0:
                 rs = lambda a: a.reshape(2, -1)
             else:
@@ -189,7 +203,7 @@ def run(case, rec):
             name = {"unique": lambda i: "s%d" % i, "dup": lambda i: "step", "rev": lambda i: "s%d" % (9 - i)}[naming]
             return vd.Chain([(name(i), _mk(alpha, k, weighted, case.get("route", "ctor"))) for i, k in enumerate(steps)])
 
-        scale = 30.0
+        scale = 30.0 * dscale
         if kind == "chain":
             coords, data, wts = args_for(case["ds"], case["shape"])
             ch = chain()
@@ -285,7 +299,8 @@ def run(case, rec):
         return
     if kind in ("filter", "vector_parts"):
         alpha = "scalar" if case.get("alpha", "vector") == "scalar" else "vector"
-        e, n, d, w = _dataset(0)
+        e, n, d, w = _dataset(case.get("ds", 0))
+        d = tuple(x * case.get("dscale", 1.0) for x in d)
         rs = (lambda a: a.reshape(2, -1)) if case["shape"] == "2d" else (lambda a: a)
         coords = (rs(e), rs(n))
         data = rs(d[0]) if alpha == "scalar" else (rs(d[0]), rs(d[1]))
@@ -308,7 +323,7 @@ def run(case, rec):
             rec.check(isinstance(out[1], tuple) == (alpha == "vector"), "residual container type does not follow the data")
             for r_, dd in zip(res, _as_list(data)):
                 rec.check(np.asarray(r_).shape == dd.shape, "residual shape %s != data shape %s" % (np.asarray(r_).shape, dd.shape))
-            _close(rec, res, want, 30.0, "filter residuals = data - prediction")
+            _close(rec, res, want, 30.0 * case.get("dscale", 1.0), "filter residuals = data - prediction")
             rec.cls("filter/%s" % case["step"])
             return
         # Vector components versus separately fitted estimators
